@@ -32,7 +32,15 @@ G = {"group": "g/ac", "members": [A, C]}
 G_Y = {"group": "g/yc", "members": [Y, C]}
 G_B = {"group": "g/bc", "members": [B, C]}
 N_B = rs("t/holder", [["record", "sub"]], [B])
-KINDS = {"A": A, "B": B, "A2": A2, "C": C, "N_A": N_A, "N_X": N_X, "G": G, "G_Y": G_Y, "G_B": G_B, "N_B": N_B}
+P1 = rs("t/p1", [["stringlist", "a"]], ["['l1']"])
+P2 = rs("t/p2", [["string", "b"], ["path", "p"]], ["'sb'", "'/c'"])
+G_ALT = {"group": "g/ac", "members": [P1, P2]}  # same group name and flattened fields as G, other member types
+G_AA2 = {"group": "g/aa2", "members": [A2, A]}  # two members sharing a type name but not the fields
+F_BAD = rs("t/f", [["string", "s"]], ["chr(0xd800)"])  # cannot be encoded: the write raises after the type was registered
+F_OK = rs("t/f", [["string", "s"]], ["'fine'"])
+NF_BAD = rs("t/nf", [["record", "sub"]], [F_BAD])
+NF_OK = rs("t/nf", [["record", "sub"]], [F_OK])
+KINDS = {"G_ALT": G_ALT, "G_AA2": G_AA2, "F_BAD": F_BAD, "F_OK": F_OK, "NF_BAD": NF_BAD, "NF_OK": NF_OK, "A": A, "B": B, "A2": A2, "C": C, "N_A": N_A, "N_X": N_X, "G": G, "G_Y": G_Y, "G_B": G_B, "N_B": N_B}
 
 CONF = {}  # set in main(): {"packer": "binary"|"json", "m": int, "kinds": [...]}
 
@@ -41,6 +49,51 @@ def kinds_for(packer, names):
     if packer == "json":
         return [k for k in names if not k.startswith("G")]
     return list(names)
+
+
+def generic_canon(obj, depth=0):
+    """Project every attribute of a writer/packer object (not only the registry) so that state a change adds is not merged away."""
+    from flow.record import RecordDescriptor
+
+    if depth > 3:
+        return "..."
+    if isinstance(obj, RecordDescriptor):
+        return ["desc", obj.name, [list(t) for t in obj.get_field_tuples()]]
+    if isinstance(obj, (str, int, float, bool, type(None), bytes)):
+        return repr(obj)[:80]
+    if isinstance(obj, dict):
+        return sorted([[repr(k)[:80], generic_canon(v, depth + 1)] for k, v in obj.items()], key=lambda kv: kv[0])
+    if isinstance(obj, (list, tuple)):
+        return [generic_canon(v, depth + 1) for v in obj]
+    if isinstance(obj, (set, frozenset)):
+        return sorted(repr(generic_canon(v, depth + 1)) for v in obj)
+    if hasattr(obj, "read") or hasattr(obj, "write") and hasattr(obj, "flush") and not hasattr(obj, "packer"):
+        return "<file>"
+    d = getattr(obj, "__dict__", None)
+    if d is None:
+        return type(obj).__name__
+    return [type(obj).__name__, sorted([[k, generic_canon(v, depth + 1)] for k, v in d.items() if k not in ("fp", "handlers", "on_descriptor")],
+                                       key=lambda kv: kv[0])]
+
+
+def module_state():
+    """Mutable module/class level containers of the writing modules (a hoisted cache would live here)."""
+    import flow.record.jsonpacker as jp
+    import flow.record.packer as pk
+    import flow.record.stream as st
+
+    out = []
+    for mod in (pk, jp, st):
+        for k, v in sorted(vars(mod).items()):
+            if k.startswith("__"):
+                continue
+            if isinstance(v, (dict, list, set)):
+                out.append([mod.__name__, k, generic_canon(v)])
+            elif isinstance(v, type) and v.__module__ == mod.__name__:
+                for ck, cv in sorted(vars(v).items()):
+                    if isinstance(cv, (dict, list, set)) and not ck.startswith("__"):
+                        out.append([mod.__name__, v.__name__ + "." + ck, generic_canon(cv)])
+    return out
 
 
 def reg_canon(descriptors):
@@ -149,8 +202,12 @@ def step_binary(hist, conf):
         if i == len(hist) - 1:
             before = [b.getvalue() for b in bufs]
         r = recs.build_record(KINDS[k])
-        writers[w].write(r)
-        written[w].append(r)
+        try:
+            writers[w].write(r)
+            written[w].append(r)
+            last_failed = False
+        except (UnicodeError, ValueError, TypeError):
+            last_failed = True  # a refused record: nothing of it may count as written; later records must still decode
     viol = []
     case = {"kind": "hist", "packer": "binary", "m": m, "history": hist}
     out = "root"
@@ -164,7 +221,17 @@ def step_binary(hist, conf):
                 dec_reg = sorted([repr(k), v[0], [list(f) for f in v[1]]] for k, v in dec.reg.items())
             except refcodec.FormatError:
                 dec_reg = ["format-error"]
-        canon.append([writers[wi].header_written, reg_canon(writers[wi].packer.descriptors), dec_reg])
+        canon.append([writers[wi].header_written, reg_canon(writers[wi].packer.descriptors), dec_reg, generic_canon(writers[wi])])
+    canon.append(module_state())
+    if hist and last_failed:
+        # the record was refused; judge only that the stream is still well formed for what was accepted
+        w, k = hist[-1]
+        got = ref_tolerant(datas[w])
+        if len(got) != len(written[w]):
+            viol.append(("C03:binary:refused-write-left-a-record:%s" % k, case, {"on_wire": len(got), "accepted": len(written[w])}))
+        for wr in writers:
+            wr.fp = None
+        return {"canon": canon, "viol": viol, "out": k + ":refused", "enabled": _enabled(conf)}
     if hist:
         w, k = hist[-1]
         expected = obs_list(written[w])
@@ -229,8 +296,12 @@ def step_json(hist, conf):
         if i == len(hist) - 1:
             before = [b.getvalue() for b in bufs]
         r = recs.build_record(KINDS[k])
-        writers[w].write(r)
-        written[w].append(r)
+        try:
+            writers[w].write(r)
+            written[w].append(r)
+            last_failed = False
+        except (UnicodeError, ValueError, TypeError):
+            last_failed = True
     viol = []
     case = {"kind": "hist", "packer": "json", "m": m, "history": hist}
     out = "root"
@@ -244,7 +315,12 @@ def step_json(hist, conf):
                 if cur[0] is None:
                     cur[0] = [e[2], [list(f) for f in e[3]]]
                 cur[1] = [e[2], [list(f) for f in e[3]]]
-        canon.append([reg_canon(writers[wi].packer.descriptors), sorted(rreg.items())])
+        canon.append([reg_canon(writers[wi].packer.descriptors), sorted(rreg.items()), generic_canon(writers[wi])])
+    canon.append(module_state())
+    if hist and last_failed:
+        for wr in writers:
+            wr.fp = None
+        return {"canon": canon, "viol": viol, "out": hist[-1][1] + ":refused", "enabled": _enabled(conf)}
     if hist:
         w, k = hist[-1]
         expected = obs_list(written[w])
@@ -332,7 +408,7 @@ def main(tier, seed, workers=None):
     for packer, m, kinds, cap in plans:
         CONF.clear()
         CONF.update({"packer": packer, "m": m, "kinds": kinds})
-        s, t, fix, depth = bfs(run, step, cap, workers, label="%s m=%d: " % (packer, m))
+        s, t, fix, depth = bfs(run, step, cap, workers, label="%s m=%d: " % (packer, m), full_depth=3 if m == 1 else 2)
         machines.append({"packer": packer, "writers": m, "kinds": kinds, "states": s, "transitions": t, "fixpoint": fix, "depth": depth})
         tot_s += s
         tot_t += t
